@@ -54,6 +54,22 @@ impl Future for GateFuture {
     }
 }
 
+/// Yields to the scheduler exactly once.
+pub struct YieldOnce(bool);
+
+impl Future for YieldOnce {
+    type Output = ();
+    fn poll(mut self: Pin<&mut Self>, cx: &mut Context<'_>) -> Poll<()> {
+        if self.0 {
+            Poll::Ready(())
+        } else {
+            self.0 = true;
+            cx.waker().wake_by_ref();
+            Poll::Pending
+        }
+    }
+}
+
 // ------------------------------------------------------------------ page plan
 
 /// (namespace, label, expected text template)
@@ -157,6 +173,9 @@ pub struct Request {
     pub under_suspense: bool,
     /// a run-once access inside a `Suspend` future: (key index into EAGER_KEYS, gate)
     pub eager: Option<(usize, usize)>,
+    /// a hand-written integration: the page is built in one step and rendered with `to_html()` in a later one
+    /// (other requests may be built or rendered in between)
+    pub manual: bool,
 }
 
 /// (namespace, label, expected text template) of the run-once accesses
@@ -194,7 +213,7 @@ impl Plan {
         json!({
             "requests": self.requests.iter().map(|r| json!({
                 "cookie": r.cookie, "accept": r.accept, "in_order": r.in_order, "start_at": r.start_at, "drop_after_chunks": r.drop_after_chunks,
-                "provider": r.provider, "under_suspense": r.under_suspense, "eager": r.eager.map(|(k, g)| json!([k, g])),
+                "provider": r.provider, "under_suspense": r.under_suspense, "eager": r.eager.map(|(k, g)| json!([k, g])), "manual": r.manual,
                 "page": r.page.iter().map(|n| n.to_json()).collect::<Vec<_>>(),
             })).collect::<Vec<_>>(),
             "gates": self.gates, "policy": self.policy.name(), "schedule": schedule,
@@ -214,6 +233,7 @@ impl Plan {
                 provider: r["provider"].as_u64().unwrap_or(0) as u8,
                 under_suspense: r["under_suspense"].as_bool().unwrap_or(false),
                 eager: r["eager"].as_array().map(|a| (a[0].as_u64().unwrap_or(0) as usize, a[1].as_u64().unwrap_or(0) as usize)),
+                manual: r["manual"].as_bool().unwrap_or(false),
             })
             .collect();
         let gates = v["gates"].as_array().map(|a| a.iter().map(|g| g.as_u64()).collect()).unwrap_or_default();
@@ -261,7 +281,20 @@ pub fn generate(rng: &mut Rng) -> Plan {
             provider,
             under_suspense: rng.chance(1, 6),
             eager: if n_gates > 0 && rng.chance(1, 4) { Some((rng.below(EAGER_KEYS.len()), rng.below(n_gates))) } else { None },
+            manual: false,
         });
+        if rng.chance(1, 5) {
+            // hand-written integration: synchronous rendering, so no Suspense in the page
+            let r = requests.last_mut().unwrap();
+            r.manual = true;
+            r.under_suspense = false;
+            r.eager = None;
+            r.drop_after_chunks = None;
+            r.page.retain(|n| !matches!(n, Node::Suspense { .. }));
+            if r.page.is_empty() {
+                r.page.push(Node::Text { key: rng.below(KEYS.len()) });
+            }
+        }
     }
     let policy = match rng.below(6) {
         0 => Policy::Fifo,
@@ -755,6 +788,32 @@ pub fn handle(req: &Value) -> Value {
                 let (req, gs, in_order, drop_after) = (r.clone(), gates.clone(), r.in_order, r.drop_after_chunks);
                 // one task per request: root owner creation, app construction and the first poll of the stream happen
                 // inside `from_app` without yielding in between, exactly as in the server integrations
+                if r.manual {
+                    let req = r.clone();
+                    any_spawner::Executor::spawn_local(async move {
+                        use hydration_context::{SharedContext, SsrSharedContext};
+                        let shared = Arc::new(SsrSharedContext::new()) as Arc<dyn SharedContext + Send + Sync>;
+                        let owner = Owner::new_root(Some(shared));
+                        let (meta, _meta_output) = ServerMetaContext::new();
+                        let st_app = st.clone();
+                        let gs = vec![];
+                        // step 1: build the page
+                        let view = owner.with(|| {
+                            provide_context(meta);
+                            page_view(req, gs, st_app).into_any()
+                        });
+                        // other tasks (other requests) may run here
+                        YieldOnce(false).await;
+                        // step 2: render it
+                        let html = owner.with(|| view.to_html());
+                        let mut s = st.lock().unwrap();
+                        s.chunks.push(html);
+                        s.complete = true;
+                        drop(s);
+                        owner.unset();
+                    });
+                    continue;
+                }
                 any_spawner::Executor::spawn_local(async move {
                     let (meta, meta_output) = ServerMetaContext::new();
                     let st_app = st.clone();
@@ -921,7 +980,7 @@ pub fn handle(req: &Value) -> Value {
             }
         }
         // <html lang dir>: the final main locale, when the provider is asked to set them (its defaults)
-        if let (Some(p), false) = (html.find("<html"), r.under_suspense) {
+        if let (Some(p), false) = (html.find("<html"), r.under_suspense || r.manual) {
             let tag_end = html[p..].find('>').map(|e| e + p).unwrap_or(html.len());
             let tag = &html[p..tag_end];
             let want = format!("lang=\"{}\"", LOCS[exp.main_locale]);
